@@ -2575,3 +2575,26 @@ Proof.
   split; [vm_compute; reflexivity|]. split; [|discriminate].
   vm_compute in El. inversion El; subst k. vm_compute. reflexivity.
 Qed.
+
+(* an irregular package: a dangling core-properties relationship, a dangling slide
+   relationship whose absent target still has a rels item (leading to an image no loaded
+   part refers to), a slide without rels item, an unreferenced thumbnail *)
+Definition ex_irregular : phys wblob :=
+  [([47; 91; 67; 111; 110; 116; 101; 110; 116; 95; 84; 121; 112; 101; 115; 93; 46; 120; 109; 108]%N, mkW 1 1 None (Some ([([120; 109; 108]%N, [97; 112; 112; 108; 105; 99; 97; 116; 105; 111; 110; 47; 120; 109; 108]%N); ([114; 101; 108; 115]%N, [97; 112; 112; 108; 105; 99; 97; 116; 105; 111; 110; 47; 118; 110; 100; 46; 111; 112; 101; 110; 120; 109; 108; 102; 111; 114; 109; 97; 116; 115; 45; 112; 97; 99; 107; 97; 103; 101; 46; 114; 101; 108; 97; 116; 105; 111; 110; 115; 104; 105; 112; 115; 43; 120; 109; 108]%N); ([80; 78; 71]%N, [105; 109; 97; 103; 101; 47; 112; 110; 103]%N)], [([47; 112; 112; 116; 47; 112; 114; 101; 115; 101; 110; 116; 97; 116; 105; 111; 110; 46; 120; 109; 108]%N, [97; 112; 112; 108; 105; 99; 97; 116; 105; 111; 110; 47; 118; 110; 100; 46; 111; 112; 101; 110; 120; 109; 108; 102; 111; 114; 109; 97; 116; 115; 45; 111; 102; 102; 105; 99; 101; 100; 111; 99; 117; 109; 101; 110; 116; 46; 112; 114; 101; 115; 101; 110; 116; 97; 116; 105; 111; 110; 109; 108; 46; 112; 114; 101; 115; 101; 110; 116; 97; 116; 105; 111; 110; 46; 109; 97; 105; 110; 43; 120; 109; 108]%N); ([47; 80; 80; 84; 47; 115; 108; 105; 100; 101; 115; 47; 115; 108; 105; 100; 101; 49; 46; 88; 77; 76]%N, [97; 112; 112; 108; 105; 99; 97; 116; 105; 111; 110; 47; 118; 110; 100; 46; 111; 112; 101; 110; 120; 109; 108; 102; 111; 114; 109; 97; 116; 115; 45; 111; 102; 102; 105; 99; 101; 100; 111; 99; 117; 109; 101; 110; 116; 46; 112; 114; 101; 115; 101; 110; 116; 97; 116; 105; 111; 110; 109; 108; 46; 115; 108; 105; 100; 101; 43; 120; 109; 108]%N)])));
+   ([47; 95; 114; 101; 108; 115; 47; 46; 114; 101; 108; 115]%N, mkW 2 1 (Some [mkRel [114; 73; 100; 49]%N [104; 116; 116; 112; 58; 47; 47; 115; 99; 104; 101; 109; 97; 115; 46; 111; 112; 101; 110; 120; 109; 108; 102; 111; 114; 109; 97; 116; 115; 46; 111; 114; 103; 47; 111; 102; 102; 105; 99; 101; 68; 111; 99; 117; 109; 101; 110; 116; 47; 50; 48; 48; 54; 47; 114; 101; 108; 97; 116; 105; 111; 110; 115; 104; 105; 112; 115; 47; 111; 102; 102; 105; 99; 101; 68; 111; 99; 117; 109; 101; 110; 116]%N [112; 112; 116; 47; 112; 114; 101; 115; 101; 110; 116; 97; 116; 105; 111; 110; 46; 120; 109; 108]%N MInt; mkRel [114; 73; 100; 53]%N [104; 116; 116; 112; 58; 47; 47; 115; 99; 104; 101; 109; 97; 115; 46; 111; 112; 101; 110; 120; 109; 108; 102; 111; 114; 109; 97; 116; 115; 46; 111; 114; 103; 47; 112; 97; 99; 107; 97; 103; 101; 47; 50; 48; 48; 54; 47; 114; 101; 108; 97; 116; 105; 111; 110; 115; 104; 105; 112; 115; 47; 109; 101; 116; 97; 100; 97; 116; 97; 47; 99; 111; 114; 101; 45; 112; 114; 111; 112; 101; 114; 116; 105; 101; 115]%N [100; 111; 99; 80; 114; 111; 112; 115; 47; 99; 111; 114; 101; 46; 120; 109; 108]%N MInt]) None);
+   ([47; 112; 112; 116; 47; 112; 114; 101; 115; 101; 110; 116; 97; 116; 105; 111; 110; 46; 120; 109; 108]%N, mkW 3 1 None None);
+   ([47; 112; 112; 116; 47; 95; 114; 101; 108; 115; 47; 112; 114; 101; 115; 101; 110; 116; 97; 116; 105; 111; 110; 46; 120; 109; 108; 46; 114; 101; 108; 115]%N, mkW 4 1 (Some [mkRel [114; 73; 100; 55]%N [104; 116; 116; 112; 58; 47; 47; 115; 99; 104; 101; 109; 97; 115; 46; 111; 112; 101; 110; 120; 109; 108; 102; 111; 114; 109; 97; 116; 115; 46; 111; 114; 103; 47; 111; 102; 102; 105; 99; 101; 68; 111; 99; 117; 109; 101; 110; 116; 47; 50; 48; 48; 54; 47; 114; 101; 108; 97; 116; 105; 111; 110; 115; 104; 105; 112; 115; 47; 115; 108; 105; 100; 101]%N [115; 108; 105; 100; 101; 115; 47; 115; 108; 105; 100; 101; 49; 46; 120; 109; 108]%N MInt; mkRel [114; 73; 100; 56]%N [104; 116; 116; 112; 58; 47; 47; 115; 99; 104; 101; 109; 97; 115; 46; 111; 112; 101; 110; 120; 109; 108; 102; 111; 114; 109; 97; 116; 115; 46; 111; 114; 103; 47; 111; 102; 102; 105; 99; 101; 68; 111; 99; 117; 109; 101; 110; 116; 47; 50; 48; 48; 54; 47; 114; 101; 108; 97; 116; 105; 111; 110; 115; 104; 105; 112; 115; 47; 115; 108; 105; 100; 101]%N [115; 108; 105; 100; 101; 115; 47; 78; 85; 76; 76]%N MInt; mkRel [114; 73; 100; 50]%N [104; 116; 116; 112; 58; 47; 47; 115; 99; 104; 101; 109; 97; 115; 46; 111; 112; 101; 110; 120; 109; 108; 102; 111; 114; 109; 97; 116; 115; 46; 111; 114; 103; 47; 111; 102; 102; 105; 99; 101; 68; 111; 99; 117; 109; 101; 110; 116; 47; 50; 48; 48; 54; 47; 114; 101; 108; 97; 116; 105; 111; 110; 115; 104; 105; 112; 115; 47; 104; 121; 112; 101; 114; 108; 105; 110; 107]%N [104; 116; 116; 112; 115; 58; 47; 47; 101; 120; 97; 109; 112; 108; 101; 46; 99; 111; 109; 47]%N MExt]) None);
+   ([47; 112; 112; 116; 47; 115; 108; 105; 100; 101; 115; 47; 115; 108; 105; 100; 101; 49; 46; 120; 109; 108]%N, mkW 5 1 None None);
+   ([47; 112; 112; 116; 47; 115; 108; 105; 100; 101; 115; 47; 95; 114; 101; 108; 115; 47; 78; 85; 76; 76; 46; 114; 101; 108; 115]%N, mkW 6 1 (Some [mkRel [114; 73; 100; 49]%N [104; 116; 116; 112; 58; 47; 47; 115; 99; 104; 101; 109; 97; 115; 46; 111; 112; 101; 110; 120; 109; 108; 102; 111; 114; 109; 97; 116; 115; 46; 111; 114; 103; 47; 111; 102; 102; 105; 99; 101; 68; 111; 99; 117; 109; 101; 110; 116; 47; 50; 48; 48; 54; 47; 114; 101; 108; 97; 116; 105; 111; 110; 115; 104; 105; 112; 115; 47; 105; 109; 97; 103; 101]%N [46; 46; 47; 109; 101; 100; 105; 97; 47; 105; 109; 97; 103; 101; 49; 46; 112; 110; 103]%N MInt]) None);
+   ([47; 112; 112; 116; 47; 109; 101; 100; 105; 97; 47; 105; 109; 97; 103; 101; 49; 46; 112; 110; 103]%N, mkW 7 0 None None);
+   ([47; 100; 111; 99; 80; 114; 111; 112; 115; 47; 116; 104; 117; 109; 98; 110; 97; 105; 108; 46; 106; 112; 101; 103]%N, mkW 8 0 None None)].
+Definition n_ppt_slides_NULL : str := [47; 112; 112; 116; 47; 115; 108; 105; 100; 101; 115; 47; 78; 85; 76; 76]%N.
+
+Lemma ex_irregular_names : forall n, In n (part_names wenv ex_irregular) -> part_name n.
+Proof.
+  assert (H : forallb part_nameb (part_names wenv ex_irregular) = true) by (vm_compute; reflexivity).
+  rewrite forallb_forall in H. intros n Hn. apply part_nameb_sound; auto.
+Qed.
+
+Lemma ex_irregular_reg_wf : wf wenv (regularise wenv ex_irregular).
+Proof. apply wfb_sound. vm_compute. reflexivity. Qed.
